@@ -490,7 +490,7 @@ func vWidePersist(c *vh.Case) {
 // TestVerif_C19_history: PRNG histories of up to 25 operations with a persist/restart after every step.
 func TestVerif_C19_history(t *testing.T) {
 	vh.Run(t, vh.Spec{Prop: "C19", Unit: "history", Quick: 2500, Thorough: 200000, CostMs: 2,
-		Rule: "PRNG histories of 4-25 enqueue/dequeue/dequeue-matching/remove/clear operations over prefixes of length 0-5 (incl. the empty prefix) and 64 multihashes; lock-step list model; Persist+DrainDatastore into a fresh queue after every step; one case in 4 also persists/restores a queue of 17-48 (1 in 6: 257-316) distinct 9-bit prefixes enqueued in PRNG order; non-trivial = some enqueue absorbed or was covered by another prefix and at least one persist check ran on a queue with >= 2 prefixes; distinct by the sequence of model states",
+		Rule: "PRNG histories of 4-25 enqueue/dequeue/dequeue-matching/remove/clear operations over prefixes of length 0-5 (incl. the empty prefix) and 64 multihashes; lock-step list model; Persist+DrainDatastore into a fresh queue after every step; every second case also persists into one datastore again and again without draining it (stale entries of the earlier Persist, any count versus any batch size) and drains/compares it every third time; one case in 4 also persists/restores a queue of 17-48 (1 in 6: 257-316) distinct 9-bit prefixes enqueued in PRNG order; non-trivial = some enqueue absorbed or was covered by another prefix and at least one persist check ran on a queue with >= 2 prefixes; distinct by the sequence of model states",
 		Clauses: []string{"dequeue-oldest", "dequeue-keys", "dequeue-matching", "size", "regions", "persist-restore", "drain-empties-datastore", "drain-additive"}},
 		func(c *vh.Case) {
 			u := vUniv()
@@ -498,6 +498,7 @@ func TestVerif_C19_history(t *testing.T) {
 			n := 4 + c.R.Intn(22)
 			batches := []int{1, 2, 3, 7, 100}
 			var states []string
+			var kept ds.Batching
 			overlap, multi := false, false
 			for i := 0; i < n; i++ {
 				op := vRandOp(c, u, m)
@@ -514,6 +515,21 @@ func TestVerif_C19_history(t *testing.T) {
 				}
 				vPersistCheck(c, q, m, batches[c.R.Intn(len(batches))], nil)
 				c.Obs("persist_restart_points", 1)
+				// every second case also keeps one datastore that is persisted into again and again without being drained
+				// (a run that does not resume): each Persist has to replace whatever the earlier one left, whatever the
+				// number of stale entries and the batch size; drained and compared every third time
+				if c.Idx%2 == 0 {
+					if kept == nil {
+						kept = dssync.MutexWrap(ds.NewMapDatastore())
+					}
+					b := batches[c.R.Intn(len(batches))]
+					if c.R.Intn(3) == 0 {
+						c.Obs("persists_over_stale_entries", vDsCount(kept))
+						vPersistCheck(c, q, m, b, kept)
+					} else if err := q.Persist(context.Background(), kept, b); err != nil {
+						c.Fail("persist-error", "Persist over stale entries: %v", err)
+					}
+				}
 				if len(m.prefixes) >= 2 {
 					multi = true
 				}
